@@ -59,7 +59,7 @@ import gen_schema
 
 PROP = 'C01'
 RULE = ('random schemas (1-5 classes, 0-6 attributes of every core type in every letter case, names also from the '
-        'reserved words and M/MC; simple, reflexive-with-phrases, association-class, subtype relationships; 0-3 '
+        'reserved words, M/MC and (one name in twelve) near-keywords such as null / key / integer in every letter case; simple, reflexive-with-phrases, association-class, subtype relationships; 0-3 '
         'identifiers per class) with populations built through the API, values weighted towards the hazards of the '
         'text format (integers at the 8/31/53/63/64-bit boundaries); plus a sweep placing every reserved word in every identifier '
         'position; fixed families: unset-relink (open finding), boundary (255/256/257 rows, 255/256 attributes), twins (two of '
